@@ -1005,7 +1005,98 @@ class Interp(object):
                     env.redirect = {}
                 env.redirect[name] = e
             return None
+        if t is ast.Match:
+            subject = self.eval(st.subject, env, func)
+            if isinstance(subject, (Arr, Poly)) and not (isinstance(subject, Arr) and subject.elems is not None and subject.ndim == 0 and not isinstance(subject.elems[0], Poly)):
+                raise Unsupported("match statement over an array subject")
+            for case in st.cases:
+                binds = {}
+                if self._match(case.pattern, subject, binds, env, func):
+                    for k, v in binds.items():
+                        self.assign(ast.Name(id=k, ctx=ast.Store()), v, env, func)
+                    if case.guard is not None and not self.truth(self.eval(case.guard, env, func)):
+                        continue
+                    return self.exec_block(case.body, env, module, func)
+            return None
         raise Unsupported("statement %s" % t.__name__)
+
+    def _match(self, pat, val, binds, env, func):
+        """Structural pattern matching (PEP 634) on configuration values."""
+        t = type(pat)
+        if t is ast.MatchValue:
+            return self.truth(self.compare(ast.Eq(), val, self.eval(pat.value, env, func)))
+        if t is ast.MatchSingleton:
+            return val is pat.value
+        if t is ast.MatchAs:
+            if pat.pattern is not None and not self._match(pat.pattern, val, binds, env, func):
+                return False
+            if pat.name is not None:
+                binds[pat.name] = val
+            return True
+        if t is ast.MatchOr:
+            for alt in pat.patterns:
+                b = {}
+                if self._match(alt, val, b, env, func):
+                    binds.update(b)
+                    return True
+            return False
+        if t is ast.MatchSequence:
+            if isinstance(val, (str, bytes, dict, set, frozenset)) or not isinstance(val, (list, tuple)):
+                return False
+            items = list(val)
+            star = [i for i, e in enumerate(pat.patterns) if isinstance(e, ast.MatchStar)]
+            if star:
+                i = star[0]
+                after = len(pat.patterns) - i - 1
+                if len(items) < len(pat.patterns) - 1:
+                    return False
+                pairs = list(zip(pat.patterns[:i], items[:i])) + list(zip(pat.patterns[i + 1:], items[len(items) - after:]))
+                if pat.patterns[i].name is not None:
+                    binds[pat.patterns[i].name] = list(items[i: len(items) - after])
+            else:
+                if len(items) != len(pat.patterns):
+                    return False
+                pairs = list(zip(pat.patterns, items))
+            return all(self._match(p_, v_, binds, env, func) for p_, v_ in pairs)
+        if t is ast.MatchMapping:
+            if not isinstance(val, dict):
+                return False
+            seen = []
+            for k_, p_ in zip(pat.keys, pat.patterns):
+                key = self.eval(k_, env, func)
+                if key not in val:
+                    return False
+                seen.append(key)
+                if not self._match(p_, val[key], binds, env, func):
+                    return False
+            if pat.rest is not None:
+                binds[pat.rest] = {k_: v_ for k_, v_ in val.items() if k_ not in seen}
+            return True
+        if t is ast.MatchClass:
+            cls = self.eval(pat.cls, env, func)
+            if isinstance(cls, _TypeShim) or (isinstance(cls, type) and cls in (str, bool, tuple, list, dict, set, frozenset, bytes)):
+                if not self.b_isinstance(val, cls):
+                    return False
+                if pat.kwd_patterns:
+                    raise Unsupported("match class pattern with keywords on a builtin")
+                if len(pat.patterns) > 1:
+                    raise AbstractError("%s() accepts 1 positional sub-pattern" % getattr(cls, "__name__", cls))
+                return all(self._match(p_, val, binds, env, func) for p_ in pat.patterns)
+            if isinstance(cls, ClassVal):
+                if not (isinstance(val, Obj) and cls in val.cls.mro()):
+                    return False
+                if pat.patterns:
+                    raise Unsupported("positional sub-patterns of a class pattern (__match_args__)")
+                for name, p_ in zip(pat.kwd_attrs, pat.kwd_patterns):
+                    try:
+                        v_ = self.getattr(val, name)
+                    except AttributeError:
+                        return False
+                    if not self._match(p_, v_, binds, env, func):
+                        return False
+                return True
+            raise Unsupported("match class pattern over %r" % (cls,))
+        raise Unsupported("match pattern %s" % t.__name__)
 
     def _exc_matches(self, e, typ):
         """Would `except typ` catch the abstract exception e?  True / False, or None when e's class is not known."""
